@@ -189,7 +189,8 @@ def run(ctx: lib.Ctx) -> None:
     ctx.rule = ('groups of the C06 generator restricted to one validation pass (manager batches of 1..8, consensus groups, failing_noop, '
                 'activation) plus groups mixing passes, empty groups and consensus groups without chain id; keys of the four curves '
                 '(BLS on a small share: py_ecc is slow), random chain ids. non-trivial = a group that must be signed; distinct = distinct '
-                '(curve, key, chain id, group)')
+                '(curve, key, chain id, group). In addition a sweep of 1500 P-256, 1500 secp256k1 and 300 Ed25519 signatures over a counter-swept '
+                'transfer, judged by the oracle only (value-dependent signature defects)')
     keys = {cv: [make_key(rng, cv) for _ in range(2 if cv != b'BL' else 1)] for cv in CURVES}
     import concurrent.futures
     pool = concurrent.futures.ThreadPoolExecutor(max_workers=1)
@@ -227,6 +228,27 @@ def run(ctx: lib.Ctx) -> None:
         if why and reported < 3:
             reported += 1
             ctx.violation(why, replay_doc(case, out), found=True)
+
+    # ---- signature sweep (oracle (B) only): signatures are random-looking values; defects that depend on the value of a
+    # signature component (a leading zero byte of r or s: 1 signature in 128) need volume, not structure
+    sweep = {b'p2': ctx.n(1500, 8000), b'sp': ctx.n(1500, 8000), b'ed': ctx.n(300, 1500)}
+    for cv, count in sweep.items():
+        base = G.rand_content(rng, 'transaction')
+        base.pop('parameters', None)
+        branch = G.rand_block_hash(rng)
+        short = 0
+        for i in range(count):
+            c = dict(base, counter=str(i + 1))
+            case = {'curve': cv, 'key': keys[cv][i % len(keys[cv])], 'chain_id': None, 'group': {'branch': branch, 'contents': [c]}}
+            out = run_impl(case)
+            ctx.case((cv, i), nontrivial=True, kind=f'sweep:{CURVES[cv]}')
+            if out['ok'] and cv != b'ed' and (out['raw_sig'][:1] == b'\0' or out['raw_sig'][32:33] == b'\0'):
+                short += 1
+            why = oracle(case, out)
+            if why and reported < 3:
+                reported += 1
+                ctx.violation(why, replay_doc(case, out), found=True)
+        ctx.extra[f'sweep_{CURVES[cv]}_signatures_with_leading_zero_component'] = short
 
     bad = ctx.coq_mismatches('sign', IMPORTS, 'run_case', 'case_eqb', 'kcurve * group * option bytes * bytes', 'result (bytes * N * bytes)',
                              coq_cases, shard=ctx.n(25, 100))
